@@ -102,6 +102,7 @@ func c19(c *core.Check) {
 	c19ExtendsCycle(c)
 	c19NoBoxNoCounters(c)
 	c19StyleKeywordNeedsType(c)
+	c19DescriptorsReplace(c)
 	r10 := c.Rule("R10", "decimal is the last resort for every integer: the automatic range used for decimal (numeric system) has the smallest and the largest integer as constant bounds, so no integer is refused by it", 2)
 	autoRangeRule(c, r10)
 	r11 := c.Rule("R11", "a fallback renders the same integer: every restart of renderValue with another style (fallback, decimal) passes on the parameter counterValue itself, never the absolute value taken for the systems that write the sign apart", 12)
